@@ -5,7 +5,11 @@ Open Scope N_scope.
 (* tie (a): Load reads through io.ReadFull only, accepts the zero bytes of an empty index, resets the state; a partition's
    snapshot / restore are exactly index.Save / index.Load without header, with nothing before or around them *)
 Lemma C08_facts_ok :
-  load_single_reads = Known 0%nat /\ load_accepts_empty = Known true /\ load_resets_state = Known true /\ snapshot_is_index_save = Known true.
+  load_single_reads = Known 0%nat /\ load_accepts_empty = Known true /\ load_resets_state = Known true /\ snapshot_is_index_save = Known true /\
+  (* the load path allocates fixed-size buffers, one map per shard sized by that shard's vertex count, one vector of the
+     index dimension per vertex and key / value buffers of the 8- / 16-bit lengths just read: memory is proportional to
+     what Save wrote *)
+  load_allocations_bounded = Known true.
 Proof. repeat split; reflexivity. Qed.
 
 (* Round trip: for every snapshot value within the field widths of the format (wf_snap: <= 65535 metadata pairs,
